@@ -88,7 +88,9 @@ func (s *survey) cancel(err error) {
 
 		s.err = err
 		sock.Lock()
-		s.timer.Stop()
+		if s.timer != nil {
+			s.timer.Stop()
+		}
 		if ctx.surv == s {
 			ctx.surv = nil
 		}
@@ -110,6 +112,10 @@ func (s *survey) start(qLen int, expire time.Duration) {
 	s.recvQ = make(chan *protocol.Message, qLen)
 	s.sock.surveys[s.id] = s
 	s.ctx.surv = s
+	if expire <= 0 {
+		// A zero survey time means the survey never expires.
+		return
+	}
 	s.timer = time.AfterFunc(expire, func() {
 		s.cancel(protocol.ErrProtoState)
 	})
